@@ -9,6 +9,7 @@ open Cocls.Storage
 def Pc.holder : Pc → Bool
   | Pc.needDel _ _ => true
   | Pc.needNew _ _ => true
+  | Pc.needUnbusy _ => true
   | _ => false
 
 /-- the heap block the storage object owns right now -/
@@ -612,6 +613,100 @@ theorem minv_free_shared {s s' : State} (h : MInv s) (f : Frame) (hf : f ∈ s.f
   · rw [hdang, hptr, hpc]; exact h.needDel_ptr
   · rw [hdang, hptr, hpc]; exact h.needNew_ptr
 
+/-- growth, second half, `operator new` throws: the holder empties the storage (it still holds `_busy`) -/
+theorem minv_go_fail_new {s s' : State} (h : MInv s) (t fid sz : Nat) (ht : s.pc t = Pc.needNew fid sz)
+    (hheap : s'.heap = s.heap) (hfr : s'.frames = s.frames) (hptr : s'.ptr = none) (hcap : s'.cap = 0)
+    (hbusy : s'.busy = s.busy) (hdang : s'.dangling = false)
+    (hpc : ∀ u, s'.pc u = if u = t then Pc.needUnbusy fid else s.pc u) : MInv s' := by
+  have hth : (s.pc t).holder = true := by rw [ht]; rfl
+  have hallp := h.holder_noshared t hth
+  have hown : owned s = [] := by
+    rcases h.needNew_ptr t fid sz ht with hd | hn
+    · simp [owned, hd]
+    · simp [owned, hn]
+  have hhold : ∀ u, (s'.pc u).holder = true ↔ (s.pc u).holder = true := by
+    intro u
+    rw [hpc u]
+    by_cases e : u = t
+    · subst e; simp only [if_true]; rw [hth]; simp [Pc.holder]
+    · simp [e]
+  have honly : ∀ u, (s'.pc u).holder = true → u = t := fun u hu => h.holder_unique u t ((hhold u).mp hu) hth
+  refine ⟨?_, ?_, ?_, ?_, ?_, ?_, ?_, ?_, ?_, ?_, ?_, ?_, ?_⟩
+  · rw [hheap]; exact h.once
+  · intro b
+    have h1 := h.noleak b
+    rw [hown] at h1
+    rw [hheap, hfr]
+    simp only [owned, hdang, hptr, Option.toList, Bool.false_eq_true, if_false]
+    exact h1
+  · rw [hheap, hfr]; exact h.fits
+  · rw [hfr]; exact h.excl
+  · intro f hf hq; rw [hfr] at hf; rw [hallp f hf] at hq; cases hq
+  · intro _ p hp; rw [hptr] at hp; cases hp
+  · intro _; exact hcap
+  · intro u v hu hv; exact h.holder_unique u v ((hhold u).mp hu) ((hhold v).mp hv)
+  · intro u hu; rw [hfr]; exact h.holder_noshared u ((hhold u).mp hu)
+  · rw [hbusy, h.busy_iff, hfr]
+    constructor
+    · rintro (⟨u, hu⟩ | hx)
+      · exact Or.inl ⟨u, (hhold u).mpr hu⟩
+      · exact Or.inr hx
+    · rintro (⟨u, hu⟩ | hx)
+      · exact Or.inl ⟨u, (hhold u).mp hu⟩
+      · exact Or.inr hx
+  · intro hd; rw [hdang] at hd; cases hd
+  · intro u fid' sz' hu
+    have e := honly u (by rw [hu]; rfl)
+    subst e
+    rw [hpc u] at hu; simp at hu
+  · intro u fid' sz' hu
+    have e := honly u (by rw [hu]; rfl)
+    subst e
+    rw [hpc u] at hu; simp at hu
+
+/-- … and then gives `_busy` back: nobody holds the block, no frame lives in it -/
+theorem minv_go_unbusy {s s' : State} (h : MInv s) (t fid : Nat) (ht : s.pc t = Pc.needUnbusy fid)
+    (hheap : s'.heap = s.heap) (hfr : s'.frames = s.frames) (hptr : s'.ptr = s.ptr) (hcap : s'.cap = s.cap)
+    (hbusy : s'.busy = false) (hdang : s'.dangling = s.dangling)
+    (hpc : ∀ u, s'.pc u = if u = t then Pc.idle else s.pc u) : MInv s' := by
+  have hth : (s.pc t).holder = true := by rw [ht]; rfl
+  have hallp := h.holder_noshared t hth
+  have hnd : s.dangling = false := by
+    cases hd : s.dangling with
+    | false => rfl
+    | true =>
+      obtain ⟨u, f', z', hu⟩ := h.dangling_new hd
+      have := h.holder_unique u t (by rw [hu]; rfl) hth
+      subst this; rw [ht] at hu; cases hu
+  have hnoh : ∀ u, (s'.pc u).holder = false := by
+    intro u
+    rw [hpc u]
+    by_cases e : u = t
+    · simp [e, Pc.holder]
+    · simp only [e, if_false]
+      cases hh : (s.pc u).holder with
+      | false => rfl
+      | true => exact absurd (h.holder_unique u t hh hth) e
+  refine ⟨?_, ?_, ?_, ?_, ?_, ?_, ?_, ?_, ?_, ?_, ?_, ?_, ?_⟩
+  · rw [hheap]; exact h.once
+  · intro b; rw [hheap, hfr]; simp only [owned, hdang, hptr]; exact h.noleak b
+  · rw [hheap, hfr]; exact h.fits
+  · rw [hfr]; exact h.excl
+  · intro f hf hq; rw [hfr] at hf; rw [hallp f hf] at hq; cases hq
+  · rw [hdang, hptr, hcap, hheap]; exact h.ptr_live
+  · rw [hptr, hcap]; exact h.ptr_none
+  · intro u v hu _; rw [hnoh u] at hu; cases hu
+  · intro u hu; rw [hnoh u] at hu; cases hu
+  · rw [hbusy, hfr]
+    constructor
+    · intro e; cases e
+    · rintro (⟨u, hu⟩ | ⟨f, hf, hq⟩)
+      · rw [hnoh u] at hu; cases hu
+      · rw [hallp f hf] at hq; cases hq
+  · intro hd; rw [hdang, hnd] at hd; cases hd
+  · intro u fid' sz' hu; have := hnoh u; rw [hu] at this; cases this
+  · intro u fid' sz' hu; have := hnoh u; rw [hu] at this; cases this
+
 theorem minv_stepBegin {s : State} (h : MInv s) (t sz : Nat) (ht : s.pc t = Pc.idle) : MInv (stepBegin s t sz).1 := by
   have hth : (s.pc t).holder = false := by rw [ht]; rfl
   unfold stepBegin
@@ -639,51 +734,7 @@ theorem minv_stepGo {s : State} (h : MInv s) (t : Nat) : MInv (stepGo s t).1 := 
   | needDel fid sz => exact minv_go_del h t fid sz ht rfl rfl rfl rfl rfl rfl (fun u => rfl)
   | needNew fid sz => exact minv_go_new h t fid sz ht rfl rfl rfl rfl rfl rfl (fun u => rfl)
   | needPriv fid sz => exact minv_go_priv h t fid sz ht rfl rfl rfl rfl rfl rfl (fun u => rfl)
-
-/-- growth, second half, `operator new` throws: the holder leaves an empty storage and gives `_busy` back -/
-theorem minv_go_fail_new {s s' : State} (h : MInv s) (t fid sz : Nat) (ht : s.pc t = Pc.needNew fid sz)
-    (hheap : s'.heap = s.heap) (hfr : s'.frames = s.frames) (hptr : s'.ptr = none) (hcap : s'.cap = 0)
-    (hbusy : s'.busy = false) (hdang : s'.dangling = false)
-    (hpc : ∀ u, s'.pc u = if u = t then Pc.idle else s.pc u) : MInv s' := by
-  have hth : (s.pc t).holder = true := by rw [ht]; rfl
-  have hallp := h.holder_noshared t hth
-  have hown : owned s = [] := by
-    rcases h.needNew_ptr t fid sz ht with hd | hn
-    · simp [owned, hd]
-    · simp [owned, hn]
-  have hnoh : ∀ u, (s'.pc u).holder = false := by
-    intro u
-    rw [hpc u]
-    by_cases e : u = t
-    · simp [e, Pc.holder]
-    · simp only [e, if_false]
-      cases hh : (s.pc u).holder with
-      | false => rfl
-      | true => exact absurd (h.holder_unique u t hh hth) e
-  refine ⟨?_, ?_, ?_, ?_, ?_, ?_, ?_, ?_, ?_, ?_, ?_, ?_, ?_⟩
-  · rw [hheap]; exact h.once
-  · intro b
-    have h1 := h.noleak b
-    rw [hown] at h1
-    rw [hheap, hfr]
-    simp only [owned, hdang, hptr, Option.toList, Bool.false_eq_true, if_false]
-    exact h1
-  · rw [hheap, hfr]; exact h.fits
-  · rw [hfr]; exact h.excl
-  · intro f hf hq; rw [hfr] at hf; rw [hallp f hf] at hq; cases hq
-  · intro _ p hp; rw [hptr] at hp; cases hp
-  · intro _; exact hcap
-  · intro u v hu _; rw [hnoh u] at hu; cases hu
-  · intro u hu; rw [hnoh u] at hu; cases hu
-  · rw [hbusy, hfr]
-    constructor
-    · intro e; cases e
-    · rintro (⟨u, hu⟩ | ⟨f, hf, hq⟩)
-      · rw [hnoh u] at hu; cases hu
-      · rw [hallp f hf] at hq; cases hq
-  · intro hd; rw [hdang] at hd; cases hd
-  · intro u fid' sz' hu; have := hnoh u; rw [hu] at this; cases this
-  · intro u fid' sz' hu; have := hnoh u; rw [hu] at this; cases this
+  | needUnbusy fid => exact minv_go_unbusy h t fid ht rfl rfl rfl rfl rfl rfl (fun u => rfl)
 
 theorem minv_stepGoFail {s : State} (h : MInv s) (t : Nat) : MInv (stepGoFail s t).1 := by
   unfold stepGoFail
@@ -693,6 +744,7 @@ theorem minv_stepGoFail {s : State} (h : MInv s) (t : Nat) : MInv (stepGoFail s 
   | needNew fid sz => exact minv_go_fail_new h t fid sz ht rfl rfl rfl rfl rfl rfl (fun u => rfl)
   | needPriv fid sz =>
     exact minv_pc_nonholder h t Pc.idle rfl (by rw [ht]; rfl) rfl rfl rfl rfl rfl rfl (fun u => rfl)
+  | needUnbusy fid => exact minv_stepGo h t
 
 theorem minv_stepFree {s : State} (h : MInv s) (id : Nat) : MInv (stepFree s id).1 := by
   unfold stepFree
@@ -718,6 +770,7 @@ theorem minv_step {s : State} (h : MInv s) (t : Nat) (a : Act) : MInv (step s t 
   | needDel fid sz => cases a <;> first | exact minv_stepGo h t | exact minv_stepGoFail h t
   | needNew fid sz => cases a <;> first | exact minv_stepGo h t | exact minv_stepGoFail h t
   | needPriv fid sz => cases a <;> first | exact minv_stepGo h t | exact minv_stepGoFail h t
+  | needUnbusy fid => cases a <;> first | exact minv_stepGo h t | exact minv_stepGoFail h t
 
 theorem minv_run {s : State} (h : MInv s) (sched : List (Nat × Act)) : MInv (run s sched) := by
   induction sched generalizing s with
